@@ -192,3 +192,63 @@ def ref_time(rng, lo=1970, hi=2100):
     else:
         t = timedelta(seconds=rng.randint(0, 86399), microseconds=rng.choice([0, 0, 123456]))
     return d + t
+
+
+# characters that a case-insensitive Unicode match treats as equal to plain letters (full case
+# folding), or that lower() / upper() map elsewhere than the ASCII letter they look like
+FOLD_EQUIV = [("ss", "ß"), ("ß", "ss"), ("ß", "ẞ"), ("s", "ſ"), ("k", "\u212a"),
+              ("st", "\ufb06"), ("st", "\ufb05"), ("fi", "\ufb01"), ("ff", "\ufb00"),
+              ("fl", "\ufb02"), ("å", "\u212b"), ("i", "\u0130"), ("i", "ı"),
+              ("ä", "a\u0308"), ("ö", "o\u0308"), ("ü", "u\u0308"), ("ä", "Ä"), ("ü", "Ü"),
+              ("ö", "Ö"), ("é", "e\u0301"), ("a", "\uff41"), ("1", "\uff11"), ("m", "\u217f"),
+              ("i", "\u2170"), ("v", "\u2174"), ("x", "\u2179"), ("d", "\u217e"),
+              ("c", "\u217d"), ("l", "\u217c")]
+
+
+def confuse(rng, text, k=None):
+    """replace up to k occurrences of a letter (sequence) by a case-fold / compatibility
+    equivalent: the text still "looks" the same to a Unicode-aware case-insensitive pattern"""
+    low = text.lower()
+    cands = [(i, a, b) for a, b in FOLD_EQUIV for i in range(len(low)) if low.startswith(a, i)]
+    if not cands:
+        return text
+    k = k or rng.choice([1, 1, 1, 2, 3])
+    out = text
+    for i, a, b in sorted(rng.sample(cands, min(k, len(cands))), reverse=True):
+        if out.lower()[i:i + len(a)] == a:
+            out = out[:i] + b + out[i + len(a):]
+    return out
+
+
+DAYNAMES = ["monday", "tuesday", "wednesday", "thursday", "friday", "saturday", "sunday"]
+DAYNAMES_DE = ["montag", "dienstag", "mittwoch", "donnerstag", "freitag", "samstag", "sonntag"]
+MONTHNAMES = ["january", "february", "march", "april", "may", "june", "july", "august",
+              "september", "october", "november", "december"]
+
+
+def just_missed(rng, lo=1971, hi=2098):
+    """(text, reference time): a partial date written with the fields of a day D, asked a little
+    AFTER D - the next occurrence is as far away as it can be (weekday + 31st: up to 20 months,
+    29 february: 4 or 8 years, day + month: a year)"""
+    y = rng.randint(lo, hi)
+    r = rng.random()
+    if r < 0.45:
+        m = rng.choice([1, 3, 5, 7, 8, 10, 12, 12, 7])
+        d = datetime(y, m, 31)
+    elif r < 0.6:
+        while not (y % 4 == 0 and (y % 100 != 0 or y % 400 == 0)):
+            y = rng.randint(lo, hi)
+        d = datetime(y, 2, 29)
+    elif r < 0.8:
+        d = datetime(y, rng.choice([1, 3, 4, 6, 9, 11, 12]), rng.choice([29, 30]))
+    else:
+        d = datetime(y, 1, 1) + timedelta(days=rng.randint(0, 364))
+    dn = rng.choice([DAYNAMES, DAYNAMES_DE])[d.weekday()]
+    mn = MONTHNAMES[d.month - 1]
+    text = rng.choice(["%s %d." % (dn, d.day), "%s %dth" % (dn[:3], d.day), "%s %d." % (dn, d.day),
+                       "%s %d" % (dn, d.day), "%d. %s" % (d.day, mn), "%s %d" % (mn, d.day),
+                       "%d.%d." % (d.day, d.month), "%s %d. %s" % (dn, d.day, mn), "%d." % d.day,
+                       "%s the %dst" % (dn, d.day) if d.day in (1, 21, 31) else "%s %d." % (dn, d.day)])
+    ts = d + timedelta(days=rng.choice([1, 1, 2, 7, 20, 31, 45, 59]),
+                       seconds=rng.choice([0, 1, 43200, 86399]))
+    return text, ts
